@@ -93,8 +93,18 @@ package redisemu
 //@ func fnHello
 //@ prop C15
 //@ requires ctxOK(ctx)
-//@ modifies clientState.respVersion alloc map
+//@ modifies clientState.respVersion alloc map ghost.gHelloVer ghost.gHelloHasVer
 //@ ensures [C15] version: ctx.cs.respVersion == old(ctx.cs.respVersion) || ctx.cs.respVersion == 2 || ctx.cs.respVersion == 3
+// only an explicit, supported protover changes the protocol: a bare HELLO (or one carrying only AUTH/SETNAME) and a refused one leave it alone
+//@ ensures [C15] bare.keeps: old(!istype(args["arguments"], *orderedMap)) ==> ctx.cs.respVersion == old(ctx.cs.respVersion)
+//@ ensures [C15] refused.keeps: istype(output.data, respErrorString) ==> ctx.cs.respVersion == old(ctx.cs.respVersion)
+//@ ghost gHelloVer int64
+//@ ghost gHelloHasVer bool
+//@ requires !gHelloHasVer
+//@ ghostafter "ver, hasVer := helloArgs.mustGet" : gHelloHasVer = hasVer
+//@ ghostafter "ver, hasVer := helloArgs.mustGet" : gHelloVer = ver
+//@ ensures [C15] noversion.keeps: !gHelloHasVer ==> ctx.cs.respVersion == old(ctx.cs.respVersion)
+//@ ensures [C15] switch: gHelloHasVer && (gHelloVer == 2 || gHelloVer == 3) ==> ctx.cs.respVersion == int(gHelloVer)
 
 //@ func respValue.toNative
 //@ trusted conversion of a RESP value to plain Go values (tracing)
